@@ -41,6 +41,7 @@ const UNKNOWN: [&str; 8] =
     ["a::Unknown", "nope::Missing", "zz::Q", "Foo", "a::b", "a", "rt::deep::er::Nope", "Optional"];
 const TARGETS: [&str; 5] = ["::ext::Subst", "crate::ext::Other", "::ext::Gen<A>", "::ext::Wrap<::ext::Inner<A>, u8>", "::ext::Two<A, B>"];
 
+#[derive(Debug)]
 pub enum VObs {
     Ok,
     Err(Vec<(String, Vec<String>)>, Vec<(String, Vec<String>)>, Vec<(Vec<String>, Vec<String>)>),
